@@ -949,11 +949,11 @@ def shards(tier):
             out.append(("%s#%d" % (name, i), lambda ctx, body=body, strat=strat, per=per: drive_hypothesis(ctx, body, strat, per)))
     big = side if not th else 24
     big30 = side if not th else 30
-    rnd("binary_rand", 2 if not th else 4, body_binary, lambda d: binary_cases(big, d), 500 if not th else 5000, HALVES)
-    rnd("reclass_rand", 3 if not th else 6, body_reclassify, lambda d: reclassify_cases(big, d), 700 if not th else 7000, PAIRS)
-    rnd("eqint_rand", 3 if not th else 6, body_equal_interval, lambda d: equal_interval_cases(big30, d), 600 if not th else 7000, PAIRS)
-    rnd("quant_rand", 3 if not th else 6, body_quantile, lambda d: quantile_cases(big30, d), 500 if not th else 6000, PAIRS)
-    rnd("nb_rand", 3 if not th else 6, body_natural_breaks, lambda d: natural_breaks_cases(side if not th else 16, d), 500 if not th else 5000, PAIRS)
+    rnd("binary_rand", 2 if not th else 4, body_binary, lambda d: binary_cases(big, d), 500 if not th else 20000, HALVES)
+    rnd("reclass_rand", 3 if not th else 6, body_reclassify, lambda d: reclassify_cases(big, d), 700 if not th else 28000, PAIRS)
+    rnd("eqint_rand", 3 if not th else 6, body_equal_interval, lambda d: equal_interval_cases(big30, d), 600 if not th else 28000, PAIRS)
+    rnd("quant_rand", 3 if not th else 6, body_quantile, lambda d: quantile_cases(big30, d), 500 if not th else 24000, PAIRS)
+    rnd("nb_rand", 3 if not th else 6, body_natural_breaks, lambda d: natural_breaks_cases(side if not th else 16, d), 500 if not th else 20000, PAIRS)
     rnd("nb_nonf32", 2 if not th else 4, body_natural_breaks, lambda d: natural_breaks_nonf32_cases(side if not th else 16), 400 if not th else 5000, [None])
     if th:
         rnd("nb_large", 4, body_natural_breaks, lambda d: natural_breaks_cases(40, d), 400, [["float64"], ["float32", "float64"], ["int64", "float64"], ["float64"]])
